@@ -9,7 +9,7 @@
 EXTENDS Types, Json
 CONSTANTS Tier,        \* "quick" | "thorough"
           Emit,        \* "all": print every case as JSON; "accepted": only those that Alg accepts (C10); "none"
-          Laws         \* "all" | "c10": only the fixed-point laws (the C10 check runs the same instance)
+          Laws         \* "c02": the laws of C02; "c10": the fixed-point laws of C10; "all": both (the two checks run the same instance)
 MCFieldOrder == [k |-> "tag", v |-> "payload"]     \* first record of the root module: fixes TLC's field order
 
 Lit1 == LitT(<<StrV("a"), IntV(1), NoneV>>)        \* Literal['a', 1, None]
@@ -47,7 +47,8 @@ D2Quick ==
   \cup Unions2({ListT(IntT), SetT(IntT), TupleT(<<IntT, IntT>>)})
   \cup Unions2({ListT(IntT), ListT(StrT), TupleT(<<StrT, StrT>>)}) \cup Unions2({DictT(StrT, IntT), DictT(StrT, StrT)})
   \cup {ListT(u) : u \in Unions2({ListT(IntT), ListT(StrT)})}
-  \cup Unions2(TupSetQuick) \cup {ListT(u) : u \in Unions2({TupF, TupIS})} \cup Unions2({ListT(TupF), ListT(TupIS)})
+  \cup Unions2({TupF, TupIS, TupleT(<<IntT, IntT>>), TupleT(<<StrT, StrT>>)}) \cup Unions2({SetT(IntT), SetT(StrT), TupIS})
+  \cup {ListT(u) : u \in Unions2({TupF, TupIS})} \cup Unions2({ListT(TupF), ListT(TupIS)})
   \cup {ListT(ListT(IntT)), ListT(DictT(StrT, IntT)), DictT(StrT, ListT(IntT)), ListT(TupleT(<<IntT, StrT>>)), SetT(TupleET(IntT)), SetT(ListT(IntT))}
 
 D1Thorough ==
@@ -77,7 +78,12 @@ TupSetThorough == TupSetQuick \cup {TupleT(<<IntT, FloatT>>), TupleT(<<FloatT, S
 D4Thorough == ContPairs \cup {ListT(u) : u \in ContPairs} \cup {DictT(StrT, u) : u \in ContPairs}
          \cup Unions2(TupSetThorough) \cup Unions3({TupF, TupIS, TupleT(<<StrT, StrT>>), SetT(IntT)})
          \cup {ListT(u) : u \in Unions2(TupSetQuick)} \cup {DictT(StrT, u) : u \in Unions2({TupF, TupIS, SetT(IntT)})}
-TypeSet == IF Tier = "quick" THEN TopLeaves \cup D1Quick \cup D2Quick
+\* (the quick run of C10 leaves out the Unions of several Tuple / Set members: they are there for C02)
+TupUnions == Unions2({TupF, TupIS, TupleT(<<IntT, IntT>>), TupleT(<<StrT, StrT>>)}) \cup Unions2({SetT(IntT), SetT(StrT), TupIS})
+C10QuickDrop == (TupUnions \ {UnionT(<<TupF, TupIS>>), UnionT(<<SetT(IntT), TupIS>>)})
+                \cup Unions2({FloatT, BoolT, Lit1, IntT, NoneT}) \cup Conts({NoneT, Lit3, BoolT}) \cup {TupleT(p) : p \in Pairs({IntT, BoolT})}
+                \cup {TupleT(<<u, IntT>>) : u \in Unions2({StrT, IntT, NoneT})} \cup {SetT(u) : u \in Unions2({StrT, IntT, BoolT})}
+TypeSet == IF Tier = "quick" THEN (TopLeaves \cup D1Quick \cup D2Quick) \ (IF Laws = "c10" THEN C10QuickDrop ELSE {})
            ELSE TopLeaves \cup D1Thorough \cup D2Thorough \cup D3Thorough \cup D4Thorough
 
 \* arguments with a default: canonical ones and valid but non-canonical ones (int for float, tuple for List, list for
@@ -118,6 +124,9 @@ ElemPool(t) ==
     [] t.k = "tuple" -> {ListV(<< >>), IntV(1), ListV(<<IntV(1), StrV("a")>>), ListV(<<IntV(1), IntV(2)>>), TupleV(<<IntV(1), StrV("a")>>), ListV(<<StrV("1"), StrV("a")>>), ListV(<<IntV(1)>>)}
     [] t.k = "dict" -> {DictV(<< >>), D1(StrV("a"), IntV(1)), D1(StrV("a"), StrV("x")), D1(IntV(1), IntV(2)), ListV(<< >>), NoneV}
 KeyPool == {StrV("a"), StrV("1"), StrV("0x10"), IntV(1), BoolV(TRUE)}
+\* members of the candidates for a Tuple[...] position (quick: a smaller pool, the arity is what matters there)
+TupPool(t) == IF Tier = "quick" THEN ElemPool(t) \cap ({IntV(1), StrV("1"), StrV("a"), FloatV(3, 2), BoolV(TRUE), NoneV} \cup {y \in ElemPool(t) : y.k \in {"list", "dict", "tuple", "set"}})
+              ELSE ElemPool(t)
 TuplePick == {IntV(1), StrV("1"), StrV("a")}       \* first members of the candidates that are given as TUPLES / with a wrong arity
 RECURSIVE Structs(_)
 Structs(t) ==
@@ -128,7 +137,7 @@ Structs(t) ==
          IN {ListV(s) : s \in SeqsUpTo2(P)} \cup {TupleV(<<e>>) : e \in P} \cup {SetV({e}) : e \in {e \in P : Hashable(e)}}
             \cup {TupleV(<<IntV(1), IntV(2)>>), SetV({IntV(1), IntV(2)}), SetV({})}
     [] t.k = "tuple" ->
-         LET full == SeqProd([n \in 1..Len(t.v) |-> ElemPool(t.v[n])])
+         LET full == SeqProd([n \in 1..Len(t.v) |-> TupPool(t.v[n])])
              some == {s \in full : s[1] \in TuplePick}
          IN {ListV(s) : s \in full} \cup {TupleV(s) : s \in some}
             \cup {ListV(SubSeq(s, 1, Len(s) - 1)) : s \in some} \cup {ListV(s \o <<IntV(1)>>) : s \in some} \cup {SetV({IntV(1)})}
@@ -151,10 +160,6 @@ Next == ph = 0 /\ ph' = 1 /\ t' = t /\ d' = d /\ x' \in (IF d = NoneV THEN Cands
 Spec == Init /\ [][Next]_vars
 
 Case == ph = 1
-Given == Case /\ x # AbsentV
-\* the property on the Ref layer
-InvRefLaws          == (Given /\ Laws = "all") => RefLaws(t, x)
-InvRefPermInvariant == (Given /\ Laws = "all") => RefPermInvariant(t, x)
 
 RECURSIVE Jsonable(_)
 Jsonable(y) == CASE y.k = "bag" -> [k |-> "bag", v |-> [n \in 1..Len(AsSeq(y)) |-> Jsonable(AsSeq(y)[n])]]
@@ -162,31 +167,37 @@ Jsonable(y) == CASE y.k = "bag" -> [k |-> "bag", v |-> [n \in 1..Len(AsSeq(y)) |
                  [] y.k = "set" -> [k |-> "set", v |-> {Jsonable(e) : e \in y.v}]
                  [] y.k = "dict" -> [k |-> "dict", v |-> [n \in 1..Len(y.v) |-> <<y.v[n][1], Jsonable(y.v[n][2])>>]]
                  [] OTHER -> y
-\* what the replay needs: Ref's verdict and normal forms, Alg's prediction and the deviations it went through
-CaseJson(a) ==
-  [t |-> t, d |-> d, x |-> x, acc |-> Accepts(t, x), res |-> TopResults(t, x), aok |-> a.ok, av |-> a.v, dev |-> a.dev]
-\* the key is not given: what parse_object (defaults normalised) and parse_args (defaults as they are) return
-AbsentJson(n, r) ==
-  [t |-> t, d |-> d, x |-> x, nok |-> n.ok, nv |-> n.v, ndev |-> n.dev, rok |-> r.ok, rv |-> r.v, rdev |-> r.dev]
 ASSUME Emit # "none" => PrintT(ToJson([vocabulary |-> LET S == SetAsSeq(DOMAIN YamlTbl) IN [n \in 1..Len(S) |-> <<S[n], YamlTbl[S[n]]>>]]))
 
-\* the transcription against Ref (C02) and its fixed-point laws (C10); AlgParse is evaluated once per case and a
-\* failing law prints its name before TLC reports InvAlg
+\* One invariant, so that Ref's verdict, Ref's normal forms and Alg's result are evaluated ONCE per case; a failing law
+\* prints its name before TLC reports InvCase.
+\*   RefLaws, RefPermInvariant            the property on the Ref layer (C02)
+\*   AlgRefinesRef, DevsAsDescribed, AlgPermInvariant   the transcription against Ref (C02)
+\*   Idempotent, DumpStable, Absent*      the fixed-point laws (C10)
+\* RefPermInvariant compares all arrangements of the Unions of t; it is evaluated in the state of ONE representative of
+\* every permutation class (all arrangements are states of the instance).
 Named(name, holds) == holds \/ (PrintT(<<"LAW", name>>) /\ FALSE)
-InvAlg ==
+C02Laws == Laws \in {"c02", "all"}
+C10Laws == Laws \in {"c10", "all"}
+IsRep(ty) == ty = CHOOSE p \in AllPerms(ty) : TRUE
+InvCase ==
   IF ~Case THEN (Emit # "none" => PrintT(ToJson([type |-> t, d |-> d])))
   ELSE IF x = AbsentV
-  THEN LET n == AlgParseAbsent(t, d, TRUE)
-           r == AlgParseAbsent(t, d, FALSE)
-       IN /\ Named("AbsentLaws", AbsentLawsA(t, d, n) /\ AbsentLawsA(t, d, r))
-          /\ Named("AbsentIdempotent", (n.dev = {} => IdempotentA(t, d, n)) /\ (r.dev = {} => IdempotentA(t, d, r)))
-          /\ Named("AbsentDumpStable", (n.dev = {} => DumpStableA(t, d, n)) /\ (r.dev = {} => DumpStableA(t, d, r)))
-          /\ (Emit # "none") => PrintT(ToJson(AbsentJson(n, r)))
-  ELSE LET a == AlgParse(t, x, d)
-       IN /\ Laws = "all" => Named("AlgRefinesRef", AlgRefinesRefA(t, x, a))
-          /\ (Laws = "all" /\ Tier # "quick") => Named("AlgPermInvariant", AlgPermInvariantA(t, x, d, a))    \* (quick: every permutation is a state of its own)
-          /\ Laws = "all" => Named("DevsAsDescribed", DevsAsDescribedA(t, x, a))
-          /\ Named("Idempotent", IdempotentA(t, d, a))
-          /\ Named("DumpStable", DumpStableA(t, d, a))
-          /\ (Emit = "all" \/ (Emit = "accepted" /\ a.ok)) => PrintT(ToJson(CaseJson(a)))
+  THEN LET n == AlgParseAbsent(t, d, TRUE)           \* parse_object: defaults normalised
+           r == AlgParseAbsent(t, d, FALSE)          \* parse_args: defaults as they are
+       IN /\ C10Laws => Named("AbsentLaws", AbsentLawsA(t, d, n) /\ AbsentLawsA(t, d, r))
+          /\ C10Laws => Named("AbsentIdempotent", (n.dev = {} => IdempotentA(t, d, n)) /\ (r.dev = {} => IdempotentA(t, d, r)))
+          /\ C10Laws => Named("AbsentDumpStable", (n.dev = {} => DumpStableA(t, d, n)) /\ (r.dev = {} => DumpStableA(t, d, r)))
+          /\ (Emit # "none") => PrintT(ToJson([t |-> t, d |-> d, x |-> x, nok |-> n.ok, nv |-> n.v, ndev |-> n.dev, rok |-> r.ok, rv |-> r.v, rdev |-> r.dev]))
+  ELSE LET acc == Accepts(t, x)
+           res == TopResults(t, x)
+           a   == AlgParse(t, x, d)
+       IN /\ C02Laws => Named("RefLaws", RefLawsCore(t, x) /\ acc = (res # {}))
+          /\ (C02Laws /\ d = NoneV /\ IsRep(t)) => Named("RefPermInvariant", \A p \in AllPerms(t) \ {t} : Accepts(p, x) = acc /\ TopResults(p, x) = res)
+          /\ C02Laws => Named("AlgRefinesRef", Devs(a) = {} => (a.ok = acc /\ (a.ok => (a.v \in res /\ ConformsTop(t, a.v)))))
+          /\ (C02Laws /\ Tier # "quick") => Named("AlgPermInvariant", AlgPermInvariantA(t, x, d, a))    \* (quick: every permutation is a state of its own)
+          /\ C02Laws => Named("DevsAsDescribed", ("excLeak" \in a.dev => ~a.ok) /\ ((Devs(a) # {} /\ Devs(a) \subseteq {"litEq", "dictKey", "origNested"} /\ ~a.ok) => ~acc))
+          /\ C10Laws => Named("Idempotent", IdempotentA(t, d, a))
+          /\ C10Laws => Named("DumpStable", DumpStableA(t, d, a))
+          /\ (Emit = "all" \/ (Emit = "accepted" /\ a.ok)) => PrintT(ToJson([t |-> t, d |-> d, x |-> x, acc |-> acc, res |-> res, aok |-> a.ok, av |-> a.v, dev |-> a.dev]))
 =============================================================================
